@@ -24,6 +24,7 @@ contract, any callback for the iterators / the sweep).
 import QmcProofs.FastOpsHintIter
 import QmcProofs.FastOpsSubOps
 import QmcProofs.FastOpsHintRecycle
+import QmcProofs.FastOpsCounters
 
 namespace Qmc.C11
 open Qmc Qmc.FastOps
@@ -367,6 +368,42 @@ theorem hint_fill_recycle_then_sub_ops {τ : Type} (c : FastOps) (h : Inv c) (va
   obtain ⟨k1, k2⟩ := args_recycle_keeps_subcursor c h vars hn ps a h2
   exact sub_ops_heap_refines c h vars hn hlt ps pe t f hf _ _ (by rw [k2, hmap]; rfl) k1
 
+/-! ## per-bond counters that grow on demand (finding F32, fix 0a5077c) -/
+
+open Qmc.Counters in
+/-- The increment as the code writes it now — `if bond >= len { resize(bond + 1, 0) }; counters[bond] += 1`:
+the table reaches `bond + 1`, never shrinks, and `get_count` changes by exactly one at `bond` and nowhere
+else, for EVERY `b'` inside or beyond the table. -/
+theorem bump_grows_on_demand (cs : List Nat) (b b' : Nat) :
+    (bumpCount cs b).length = max cs.length (b + 1) ∧
+    getCountT (bumpCount cs b) b' = getCountT cs b' + (if b' = b then 1 else 0) :=
+  ⟨length_bumpCount cs b, getCountT_bumpCount cs b b'⟩
+
+open Qmc.Counters in
+/-- `get_count(b)` = number of stored operators with bond `b` for EVERY `b` (0 beyond the table), WITHOUT the
+hypothesis `bond < nbonds`: if it holds before a `mutate_p` change of slot `p` (insertion, removal, replacement by
+an operator of ANY bond; fast path or not — the counter effect is `changeCounters`), the decrement does not
+panic and it holds after; the table never shrinks. -/
+theorem count_eq_scan_all_bonds (cs : List Nat) (s : Slots) (p : Nat) (new : Option Op) (hp : p < s.length)
+    (hok : ∀ b, getCountT cs b = countBond s b) :
+    ∃ cs', changeCounters cs (slotAt s p) new = some cs' ∧ (∀ b, getCountT cs' b = countBond (s.set p new) b) ∧
+      cs.length ≤ cs'.length :=
+  changeCounters_ok cs s p new hp hok
+
+open Qmc.Counters in
+/-- Nothing already proved changes: inside the table the new updates are those of the container model
+(`incrBond` / `decrBond` of QmcModel/FastOps.lean), and `getCountT` is its `get_count` on the table. -/
+theorem counters_agree_with_model (c : FastOps) (cs : List Nat) (hc : c.bondCounters = some cs) (b : Nat)
+    (hb : b < cs.length) :
+    (c.incrBond b).bondCounters = some (bumpCount cs b) ∧
+    (∀ k, cs[b]? = some (k + 1) → some (c.decrBond b).bondCounters = (dropCount cs b).map some) ∧
+    c.getCount b = getCountT cs b := by
+  refine ⟨?_, ?_, ?_⟩
+  · simp [incrBond, hc, bumpCount_eq_modify cs b hb]
+  · intro k hk
+    simp [decrBond, hc, dropCount_some cs b k hk]
+  · simp [getCount, hc, getCountT]
+
 /-! ## non-vacuity, and what happens outside the contract (the model does what the Rust does) -/
 
 def hOpA : Op := Op.offdiagonal [0, 1] 1 [false, false] [true, false] false
@@ -490,5 +527,17 @@ and the cursor claims that nothing precedes `p` -/
 example : ((hC.fillArgsWithHint 3 (hC.getEmptyArgsVarlist [2, 0, 1]) [2, 0, 1] [none, none, none]).map
     (fun a => hC.fillArgsAtP 3 { hC.getEmptyArgsFromArgs a with lastP := none })).map (fun a => a.lastP)
     = some none := by decide
+
+/-- F32 regression input: a table of length 11 (bonds 0..10) and an operator of bond 11 — the table grows to 12 and
+`get_count(11) = 1` (the pre-fix code indexed out of range and panicked; `List.modify`, the old model update, is a
+silent no-op there) -/
+example : (Counters.bumpCount (List.replicate 11 0) 11).length = 12 ∧
+    Counters.getCountT (Counters.bumpCount (List.replicate 11 0) 11) 11 = 1 ∧
+    Counters.getCountT (Counters.bumpCount (List.replicate 11 0) 11) 12 = 0 ∧
+    (List.replicate 11 0).modify 11 (· + 1) = List.replicate 11 0 := by decide
+/-- a short history: store bond 7 on a 3-bond table, store bond 1, remove bond 7 again — the table keeps its length -/
+example : Counters.replay 3 [(true, 7), (true, 1), (false, 7)] = some [0, 1, 0, 0, 0, 0, 0, 0] := by decide
+/-- removing a bond that was never stored is the code's panic -/
+example : Counters.replay 3 [(false, 2)] = none ∧ Counters.replay 3 [(false, 5)] = none := by decide
 
 end Qmc.C11
